@@ -26,6 +26,17 @@ def rank_spelling(n, key):
     return pick(['rank = %d' % n, 'rank = "%d"' % n, 'rank(%d)' % n, 'rank("%d")' % n], 'rank', key)
 
 
+NO_RANK = -999
+NO_DISC = -999
+
+NAME_POOLS = [
+    None,                                                   # f1, f2, ...
+    ['r#type', 'r#match', 'r#fn', 'r#loop'],                # raw identifiers
+    ['state', 'other', 'f', 'source', 'builder'],           # names the templates use themselves
+    ['_0', '_f', '__f', '_s_x', 'x_'],                      # underscore-heavy names
+]
+
+
 class TypeRender:
     """Rust source for one configuration."""
 
@@ -36,6 +47,13 @@ class TypeRender:
         self.name = 'T%d' % idx
         self.opts = cfg['opts']
         self.traits = list(self.opts['traits'])
+        # naming dimension: mostly plain names, sometimes raw / template-internal / underscore names
+        self.pool = NAME_POOLS[pick([0, 0, 0, 1, 2, 3], idx, 'names')]
+
+    def fname(self, v, i):
+        if self.pool is None or i > len(self.pool):
+            return 'f%d' % i
+        return self.pool[i - 1]
 
     # ------------------------------------------------------------ attributes
     def type_attr(self):
@@ -102,7 +120,7 @@ class TypeRender:
             elif f['ord'] == 'method':
                 m = 'probes::m_cmp' if 'Ord' in self.traits else 'probes::m_pcmp'
                 ps.append(method_spelling(m, key))
-            if f['rank'] != 'none':
+            if f['rank'] != NO_RANK:
                 ps.append(rank_spelling(int(f['rank']), key))
             if ps:
                 if ps == ['ignore'] and pick([0, 1], 'osh', key) == 0:
@@ -131,6 +149,13 @@ class TypeRender:
     def variant_attr(self, v, var):
         return ''
 
+    def extra_items(self):
+        """items rendered after the type (on the same line), e.g. a hand-written PartialOrd when only Ord is educed"""
+        if 'Ord' in self.traits and 'PartialOrd' not in self.traits:
+            return ('impl ::core::cmp::PartialOrd for %s { fn partial_cmp(&self, o: &Self) -> Option<::core::cmp::Ordering> '
+                    '{ Some(::core::cmp::Ord::cmp(self, o)) } }' % self.name)
+        return ''
+
     def field_type(self, v, i, f):
         return 'P'
 
@@ -144,7 +169,7 @@ class TypeRender:
             a = self.field_attr(v, i, f)
             ty = self.field_type(v, i, f)
             if var['style'] == 'named':
-                parts.append('%sf%d: %s' % (a, i, ty))
+                parts.append('%s%s: %s' % (a, self.fname(v, i), ty))
             else:
                 parts.append('%s%s' % (a, ty))
         if var['style'] == 'named':
@@ -168,7 +193,7 @@ class TypeRender:
             return '%sunion %s%s' % (head, self.name, self.fields_src(1, var))
         vs = []
         for v, var in enumerate(c['variants'], 1):
-            d = '' if var.get('disc', 'none') == 'none' else ' = %s' % var['disc']
+            d = '' if var.get('disc', NO_DISC) == NO_DISC else ' = %s' % var['disc']
             vs.append('%sV%d%s%s' % (self.variant_attr(v, var), v, self.fields_src(v, var), d))
         return '%senum %s { %s }' % (head, self.name, ', '.join(vs))
 
@@ -181,7 +206,7 @@ class TypeRender:
             return path
         args = [self.field_ctor(v, i, var['fields'][i - 1], side, '%s[%d]' % (vals, i - 1)) for i in range(1, n + 1)]
         if var['style'] == 'named':
-            return '%s { %s }' % (path, ', '.join('f%d: %s' % (i, a) for i, a in enumerate(args, 1)))
+            return '%s { %s }' % (path, ', '.join('%s: %s' % (self.fname(v, i), a) for i, a in enumerate(args, 1)))
         return '%s(%s)' % (path, ', '.join(args))
 
     def field_ctor(self, v, i, f, side, val):
@@ -195,7 +220,7 @@ class TypeRender:
             return '%s => format!("[%d,[]]")' % (path, v)
         names = ['g%d' % i for i in range(1, n + 1)]
         if var['style'] == 'named':
-            pat = '%s { %s }' % (path, ', '.join('f%d: %s' % (i, g) for i, g in enumerate(names, 1)))
+            pat = '%s { %s }' % (path, ', '.join('%s: %s' % (self.fname(v, i), g) for i, g in enumerate(names, 1)))
         else:
             pat = '%s(%s)' % (path, ', '.join(names))
         if n == 0:
